@@ -72,6 +72,8 @@ fn main() {
         "life" => life::run(&args),
         "worker_enqueue" => worker::run(&args),
         "worker_books" => worker::books(&args),
+        "worker_fates" => worker::fates(&args),
+        "factory_step" => worker::factory_step(&args),
         "routing" => routing::run(&args),
         "outport" => outport::run(&args),
         "rpc" => rpc::run(&args),
